@@ -22,13 +22,20 @@ class World:
         return [m for m in self.modules if not any(anc(m, n) and n != m for n in self.modules)]
 
 
-def build_real(world: World, render=dotted, level_limit=None):
+def build_real(world: World, render=dotted, level_limit=None, order_seed=None):
     """The real evaluable for an abstract world, built the way the repository's own tests build graphs."""
     from pytestarch.eval_structure.evaluable_graph import EvaluableArchitectureGraph
     from pytestarch.eval_structure.networkxgraph import NetworkxGraph
     from pytestarch.eval_structure_generation.file_import.import_types import AbsoluteImport
 
     mods = [render(m) for m in world.modules]
+    if order_seed is not None:
+        # another listing of the same tree: shuffled, and packages that have sub modules left implicit (the graph
+        # creates parents of listed modules itself) - the architecture must be the same
+        rnd = random.Random(order_seed)
+        inner = {tuple(m[:i]) for m in world.modules for i in range(1, len(m))}
+        mods = [render(m) for m in world.modules if tuple(m) not in inner or rnd.random() < 0.5]
+        rnd.shuffle(mods)
     imps = [AbsoluteImport(render(u), render(v)) for u, v in world.imports]
     return EvaluableArchitectureGraph(NetworkxGraph(mods, imps, level_limit))
 
